@@ -203,7 +203,9 @@ func C05(c *ev.Ctx) {
 		pkgs = append(pkgs, c05Package(len(texts)+i, t, true))
 	}
 	// string literals that contain double quotes (rejected at the pin: judged only if the translator accepts them)
-	for i, lit := range []string{`"5\" nail"`, `"say \"hi\" (*"`, "`raw \"q\" *)`", `"a\x22b"`, `"\""`} {
+	for i, lit := range []string{`"5\" nail"`, `"say \"hi\" (*"`, "`raw \"q\" *)`", `"a\x22b"`, `"\""`,
+		// concatenations of literals (constant-folded by the type checker) one of which carries a quote
+		`"usage: tool --name=" + "\"NAME\"" + " [file]"`, `"a" + "\"" + "*) b"`, "\"x\" + `\"` + \"y\""} {
 		src := fmt.Sprintf("package gen\n\nfunc Before%d() uint64 {\n\treturn 1\n}\n\nfunc Quoted%d() string {\n\treturn %s\n}\n\nfunc After%d() uint64 {\n\treturn 2\n}\n", i, i, lit, i)
 		pkgs = append(pkgs, c05Pkg{name: fmt.Sprintf("wq%d", i), src: src, ndefs: 3, key: "c05.text", mayReject: true})
 	}
@@ -223,6 +225,11 @@ func C05(c *ev.Ctx) {
 		}
 		src := fmt.Sprintf("package gen\n\ntype Shape interface {\n%s}\n\ntype Sq struct {\n\tside uint64\n}\n\nfunc (s Sq) Area() uint64 {\n\treturn s.side * s.side\n}\n\nfunc (s Sq) Side() uint64 {\n\treturn s.side\n}\n\nfunc describe(%s) uint64 {\n\treturn %s\n}\n\nfunc UseIface() uint64 {\n\ts := Sq{side: 2}\n\treturn describe(%s)\n}\n\nfunc After%d() uint64 {\n\treturn 2\n}\n", v.methods, v.params, sum, v.args, i)
 		pkgs = append(pkgs, c05Pkg{name: fmt.Sprintf("wi%d", i), src: src, ndefs: 8, convDefs: 1, key: "c05.text"})
+	}
+	// structs with blank (padding) fields in first, middle and last position, and only blank fields
+	for i, fields := range []string{"\ta uint64\n\t_ uint64\n", "\t_ uint64\n\ta uint64\n", "\ta uint64\n\t_ uint32\n\tb bool\n", "\t_ uint64\n", "\ta uint64\n\t_ uint64\n\t_ bool\n"} {
+		src := fmt.Sprintf("package gen\n\ntype Padded struct {\n%s}\n\nfunc Mk%d() *Padded {\n\treturn new(Padded)\n}\n\nfunc After%d() uint64 {\n\treturn 2\n}\n", fields, i, i)
+		pkgs = append(pkgs, c05Pkg{name: fmt.Sprintf("wb%d", i), src: src, ndefs: 3, key: "c05.text", mayReject: true})
 	}
 	for _, p := range pkgs {
 		d := filepath.Join(m.dir, p.name)
